@@ -1105,7 +1105,7 @@ func c16CaseTermP(seq c16Seq, res c16SeqRes, precomp string) (string, error) {
 func runC16(r *Run, rng *Rng, tier string) error {
 	nSeq, rounds := 192, 4 // rounds = number of -race processes (2 rounds each)
 	if tier == "thorough" {
-		nSeq, rounds = 3000, 90
+		nSeq, rounds = 2000, 60
 	}
 	r.Meta.Rule = "state machine: sequences of 3-11 operations (SetSchema / IsNamespaceScoped / IsCertainlyClusterScoped / SchemaForResourceType / GetSchemaVersion / " +
 		"ResetOpenAPI / SuppressBuiltInSchemaUse / AddSchema / whole krusty builds of generated trees with optional openapi field, base, SMP patches, namespace) " +
